@@ -28,6 +28,7 @@
 from __future__ import annotations
 
 import typing
+from fractions import Fraction
 import re
 import logging
 from enum import Enum
@@ -422,7 +423,7 @@ def vtt_timestamp_to_secs(vtt_ts: str):
     return int(m.group('hh') if m.group('hh') is not None else 0) * 3600 + \
       int(m.group('mm')) * 60 + \
       int(m.group('ss')) + \
-      int(m.group('ms')) / 1000
+      Fraction(int(m.group('ms')), 1000)
 
   return None
 
